@@ -193,6 +193,17 @@ def run_sampler_case(ctx, suite, case, oracle=None, compare=True):
                                                   f'model: {"molecule" if "ok" in rep else rep.get("err")}')
     if oracle and rec['result'] == 'ok':
         oracle(ctx, case, rec['mol'], rec)
+        if int(lib.stable_hash([case['s'], case['seed'], 'again'])[:4], 16) % 3 == 0:
+            # the same sampler object asked for a second molecule: every guarantee holds for that one as well
+            case2 = dict(case, second_sample_on_same_object=True)
+            try:
+                with lib.quiet():
+                    mol2 = rec['sampler'].sample(case['target'], start_fragment=case.get('start'))
+            except Exception:   # noqa: BLE001 - another random path may legitimately run out of growth sites
+                mol2 = None
+            if mol2 is not None:
+                ctx.feature('second-sample-same-object')
+                oracle(ctx, case2, mol2, rec)
     elif oracle and rec['result'] != 'ok':
         oracle(ctx, case, None, rec)
     return rec
